@@ -226,6 +226,24 @@ theorem reroot_loop_as_written (t : Table) (hw : WF t) (snapshot rs : List Int) 
 /-- `TreeNeuron.reroot` and the `root` setter hand their working copy / `self` to that loop with `inplace=True`. -/
 theorem reroot_entry_points : Gen.TreeEdit.rerootMethodForwards = true ∧ Gen.TreeEdit.rootSetterReroots = true := by decide
 
+/-- Targets given as tags: the parse loop keeps the targets as objects (`force_type=object`), so a tag is replaced by the
+node id it names — the id, not a string image of it — and ids listed next to tags stay ids (read from the current
+source; before the repair a tag turned the whole list into a string array and rerooting by tag always raised). -/
+theorem reroot_targets_keep_their_type : Gen.TreeEdit.rerootTargetsKeptAsObjects = true := by decide
+
+/-- … and in the model a tag that names exactly one node resolves to that node: rerooting to it makes it a root. -/
+theorem reroot_by_tag (x y : Neuron) (tg : Tags) (s : String) (i : Int) (htg : x.tags = some tg) (hs : lookupTag tg s = some [i])
+    (h : rerootNeuron x [Where.tag s] = .ok y) : y.nodes = reroot x.nodes i ∧ i ∈ ids x.nodes := by
+  unfold rerootNeuron at h
+  simp only [resolveRoots, htg, hs] at h
+  split at h
+  · rename_i hall
+    simp only [Except.ok.injEq] at h
+    subst h
+    simp only [List.all_cons, List.all_nil, Bool.and_true, List.contains_eq_mem, decide_eq_true_eq] at hall
+    exact ⟨rfl, hall⟩
+  · simp at h
+
 /-- Rerooting a neuron (ids or tags as targets) touches nothing but the node table. -/
 theorem reroot_keeps_attachments (x y : Neuron) (targets : List Where) (h : rerootNeuron x targets = .ok y) :
     y.conns = x.conns ∧ y.tags = x.tags ∧ y.soma = x.soma := by
@@ -378,6 +396,10 @@ theorem prune_distal_to_as_written (x : Neuron) (hw : WF x.nodes) (h1 : (roots x
   rw [h]
   exact pruneLoop_distal_ids hw h1
 
+/-- Both methods make the requested nodes iterable with `force_type=object`: in a list mixing ids and tags the ids stay
+ids (read from the current source; before the repair they became strings and were looked up as tags). -/
+theorem prune_nodes_keep_their_type : Gen.TreeEdit.pruneNodesKeptAsObjects = true := by decide
+
 theorem prune_proximal_to_as_written (x : Neuron) (hw : WF x.nodes) (h1 : (roots x.nodes).length = 1) (cs : List Int) :
     okNodes (pruneMethod Gen.TreeEdit.pruneProximalSpec x (cs.map Where.id)) = pruneMany pruneProximal1 x.nodes cs := by
   have h : Gen.TreeEdit.pruneProximalSpec = refProximal := by decide
@@ -419,14 +441,20 @@ theorem subset_root_paths (t : Table) (hw : WF t) (keep : Int → Bool) (i : Int
 /-- The facts of `_subset_treeneuron` in the current source that the model hard-wires: connectors are filtered by
 their `node_id` against the surviving `node_id`s (unless `keep_disc_cn`), orphans get parent `-1`, tags are filtered
 against the surviving ids and empty tags dropped, a boolean mask selects rows by position, a graph stands for its
-nodes and a DataFrame for its `node_id` column. -/
+nodes and a DataFrame for its `node_id` column, under `prevent_fragments` a mask is translated into ids first. -/
 theorem subset_source_facts :
     Gen.TreeEdit.subsetConnFilterColumn = "node_id" ∧ Gen.TreeEdit.subsetConnFilterAgainst = "node_id" ∧
     Gen.TreeEdit.subsetConnGuard = true ∧ Gen.TreeEdit.subsetOrphanParent = -1 ∧
     Gen.TreeEdit.subsetOrphanTest = "x.nodes.parent_id.isin(x.nodes.node_id.values)" ∧
     Gen.TreeEdit.subsetTagCondition = "tn in x.nodes.node_id.values" ∧ Gen.TreeEdit.subsetDropsEmptyTags = true ∧
     Gen.TreeEdit.subsetMaskIsPositional = true ∧ Gen.TreeEdit.subsetGraphGivesItsNodes = true ∧
-    Gen.TreeEdit.subsetFrameGivesNodeIdColumn = true := by decide
+    Gen.TreeEdit.subsetFrameGivesNodeIdColumn = true ∧ Gen.TreeEdit.subsetPreventFragmentsMaskToIds = true := by decide
+
+/-- With `prevent_fragments` a boolean mask is translated into the ids it marks before the connecting nodes are looked
+for, so the mask form gives the neuron the id form gives (and inherits `prevent_fragments_*`). -/
+theorem subset_prevent_fragments_mask_is_ids (x : Neuron) (keep : Int → Bool) (kd : Bool) :
+    subsetNeuronPF x (maskIds x.nodes ((ids x.nodes).map keep)) kd = subsetNeuronPF x ((ids x.nodes).filter keep) kd := by
+  rw [maskIds_eq_filter]
 
 /-- The index literals of `connected_subgraph` that `Model/ConnSub.lean` hard-wires (`longestPath` = last of the
 longest, `firstCommon` = first, `newRootOf` = last). -/
@@ -492,6 +520,12 @@ example : roots (rerootLoopAW { refRerootSpec with rereadsRoots := false } [10] 
 example : subsetMask ex2 [true, true, false, true, false, true, false, false, false, false, true] = subset ex2 (fun i => [55, 10, 70, 30, 12].contains i) := by
   decide
 
+-- reroot by tag, and a prune list mixing an id and a tag (both failed before the repairs of the source)
+example : (match rerootNeuron nx2 [.tag "ta"] with | .ok y => roots y.nodes | .error _ => []) = [55] := by decide
+example : (okNodes (pruneMethod refDistal nx2 [.id 25, .tag "ta"])).map ids = some [55, 10, 70, 30, 40, 25] := by decide
+-- prevent_fragments with a mask marking 90, 81 and 12: the connecting nodes are added
+example : ids (subsetNeuronPF nx2 (maskIds ex2 [false, false, false, false, true, false, false, false, true, false, true])).nodes =
+    [55, 7, 90, 30, 66, 40, 81, 25, 12] := by decide
 -- the in-place graph edit on ex2 (unit weights): the edges on the path 81 → … → 10 are inverted, the others kept
 example : rerootGraphIg (graphOf ex2 fun _ _ => 1) (rootPath ex2 81) =
     [(7, 55, 1), (90, 7, 1), (25, 30, 1), (12, 25, 1), (66, 81, 1), (55, 66, 1), (40, 55, 1), (30, 40, 1), (70, 30, 1), (10, 70, 1)] := by decide
